@@ -2,8 +2,7 @@ import CJ.Model.ByteCounters
 import CJ.Drv.Util
 /-! `bytectr|<mode>|<events>`   events = `,`-separated: `<sess>u<n>` / `<sess>d<n>` a chunk of a session · `p` / `z` an epoch
 boundary (`PrintStats(false)` / `Reset`) on the process-wide `Stats`.
-mode `e`: answer `ep:<up>/<down>;…|cur:<up>/<down>|total:<up>/<down>` (what every boundary discarded, the counters now, the sum);
-mode `t` (boundaries raced with the transfers, only the sum is determined): answer `total:<up>/<down>`. -/
+mode `e`: answer `ep:<up>/<down>;…|cur:<up>/<down>|total:<up>/<down>` (what every boundary discarded, the counters now, the sum). -/
 namespace CJ.Drv.ByteCounters
 open CJ.ByteCounters CJ.Drv
 
@@ -23,8 +22,7 @@ def handle (args : List String) : Option String :=
     let es ← (fields evs ",").mapM parseEv
     let st := run es
     let tot := s!"total:{st.total true}/{st.total false}"
-    if mode == "t" then some tot
-    else if mode == "e" then
+    if mode == "e" then
       some ("ep:" ++ joinWith ";" (st.closed.map showCtr) ++ "|cur:" ++ showCtr st.cur ++ "|" ++ tot)
     else none
   | _ => none
